@@ -1,0 +1,20 @@
+//go:build verif
+
+// Contracts for the filesystem backend. The file system is a ghost map from
+// path to content (stubs: /verif/stubs/std.go). Comments only; compiled only
+// under the `verif` tag.
+
+package fs
+
+//@ pred fsOk(fdb) = fdb != nil && db.baseOk(fdb.DbBase)
+// file name of a storage key: the type byte shifted into the printable range, then the key text
+//@ ghost fileName(k) = chr(int(k[0]) + 48) + str(k[1:])
+
+// pathFor shifts the type byte of the keys in place and joins them with the directory.
+//@ func (*fsDb).pathFor
+//@   serves C10, C11
+//@   requires fdb != nil && lk != nil && len(lk.Default) >= 1 && int(lk.Default[0]) < 208 && (lk.Translation != nil ==> len(lk.Translation) >= 1 && int(lk.Translation[0]) < 208)
+//@   requires lk.Translation == nil || !sameBacking(lk.Translation, lk.Default)
+//@   modifies lk.Default[0], lk.Translation[0]
+//@   ensures @default result1 == nil && result0.Default == pjoin(fdb.dir, old(fileName(lk.Default)))
+//@   ensures @trans (old(lk.Translation) == nil ==> result0.Translation == "") && (old(lk.Translation) != nil ==> result0.Translation == pjoin(fdb.dir, old(fileName(lk.Translation))))
